@@ -293,7 +293,8 @@ META = {
              ' a position outside [-len, len) raises before anything is stored (explicit range test, or store with the index '
              'as given). References follow the Python list model: list.insert positions are compared after clamping, the label'
              ' is that of the clamped position, a label is attached only after the store succeeded, a tuple index selects like'
-             ' a list of positions.',
+             ' a list of positions. Also decided: the order string is consulted only for a frame that still needs a label, so '
+             'an already labelled frame is stored like in a list whatever the length of the order string.',
     'note': 'Every path through a method is treated as feasible; the stdlib mixin routing is re-derived from the running '
             'interpreter\'s _collections_abc.py on every run.',
 }
